@@ -590,7 +590,7 @@ def ifc_eq(ctx, n=2, pattern=(1, 0), public=True):
             xa, xb = th.getInterfacialComposition(T, g, precPhase="P1")
         else:
             xa, xb = th._interfacialCompositionFromEq(T, g, "P1")
-        ctx.observe("xa", xa); ctx.observe("xb", xb)
+        ctx.observe("xa", np.atleast_1d(xa)); ctx.observe("xb", np.atleast_1d(xb))
         ctx.prove("backend workspace built once for matrix + named precipitate", len(seen) == 1 and seen[0][1] == ["ALPHA", "P1"])
         if len(seen) != 1:
             return
@@ -639,7 +639,7 @@ def ifc_curv(ctx, n=2):
             yield (0, 0, 0, 0, 0), [_CS("ALPHA", [1 - xm, xm]), _CS("P1", [1 - xp, xp])]
     with patched(_BT, "Workspace", Workspace), patched(_BT, "dMudX", lambda mu, cs, ref: np.array([[cm if cs.phase_record.phase_name == "ALPHA" else cp]])):
         xa, xb = th.getInterfacialComposition(T, g, precPhase="P1")
-        ctx.observe("xa", xa); ctx.observe("xb", xb)
+        ctx.observe("xa", np.atleast_1d(xa)); ctx.observe("xb", np.atleast_1d(xb))
         ctx.prove("caller's gExtra array not modified", _unchanged(ctx, g, snap))
         for i in range(n):
             xa1, xb1 = th.getInterfacialComposition(T, g[i], precPhase="P1")
@@ -755,7 +755,7 @@ def history(ctx, entry="interdiff", ne=1, seq=((0.10, 900.0), (0.20, 1000.0)), k
             ctx.prove("cached composition set kept / discarded as requested", (warm._diffusivity_cache.get("ALPHA") is not None) == keep)
         r_hist = ask(warm, seq[-1][0], seq[-1][1], not keep)
         r_fresh = ask(mk(), seq[-1][0], seq[-1][1], True)
-        ctx.observe("r_hist", np.asarray(r_hist)); ctx.observe("r_fresh", np.asarray(r_fresh))
+        ctx.observe("r_hist", np.atleast_1d(r_hist)); ctx.observe("r_fresh", np.atleast_1d(r_fresh))
         ctx.prove("answer independent of the queries made before and of keeping the cached equilibria", _same(ctx, np.asarray(r_hist), np.asarray(r_fresh)))
         r_again = ask(warm, seq[-1][0], seq[-1][1], not keep)
         ctx.prove("repeating the call gives the same answer", _same(ctx, np.asarray(r_hist), np.asarray(r_again)))
